@@ -21,6 +21,12 @@ class ElementComposite(Element):
         flat = []
         for e in elems:
             flat += list(e.elems) if isinstance(e, ElementComposite) else [e]
+        for e in flat:
+            if isinstance(getattr(e, 'elem', None), ElementComposite):
+                # a wrapper (ElementDG) around a composite delivers several
+                # fields, too
+                raise NotImplementedError("A wrapped ElementComposite is "
+                                          "not supported as a component.")
         self.elems = tuple(flat)
         self.nodal_dofs = sum([e.nodal_dofs for e in self.elems])
         self.edge_dofs = sum([e.edge_dofs for e in self.elems])
